@@ -867,6 +867,65 @@ def judge_stack(part, v, vname, cases, results):
             part["observations"][k] = part["observations"].get(k, 0) + 1
 
 
+OP_HUGE_ONESHOT = 12
+HUGE_N = (1 << 32) + 100
+_huge_ref = {}
+
+
+def huge_ref(alg):
+    """digest of HUGE_N zero octets, hashlib fed in 64 MiB pieces"""
+    if alg not in _huge_ref:
+        h = hashlib.new(ALG_NAMES[alg])
+        z = bytes(1 << 26)
+        left = HUGE_N
+        while left:
+            k = min(left, len(z))
+            h.update(z[:k])
+            left -= k
+        _huge_ref[alg] = h.digest()
+    return _huge_ref[alg]
+
+
+def huge_cases(part, job):
+    """one call carrying more than 2^32 bytes (size arithmetic of a single update): SHA-2 only, on one optimised build
+    (quick: SHA-256 through SHA-NI if compiled in, and SHA-512; thorough: all four, one-shot and hex)"""
+    alg = job["alg"]
+    if alg not in (2, 3, 4, 5) or (job["tier"] == "quick" and alg not in (3, 5)):
+        return
+    names = [n for n in sorted(job["variants"]) if job["variants"][n]["spec"].get("san") == "plain"
+             and ("-O2" in job["variants"][n]["spec"].get("flags", []) or "-O3" in job["variants"][n]["spec"].get("flags", []))]
+    pref = [n for n in names if "sha" in n] or names
+    if not pref:
+        return
+    vname = pref[0]
+    v = job["variants"][vname]
+    for hexe in ((0,) if job["tier"] == "quick" else (0, 1)):
+        pay = bytes((OP_HUGE_ONESHOT, alg, hexe)) + struct.pack("<Q", HUGE_N)
+        res = common.run_cases(v["exe"], [pay], wall_timeout=900)
+        ename = "%s.%s" % (ALG_NAMES[alg], "hex" if hexe else "oneshot")
+        w = {"variant": vname, "build": v["spec"], "case": {"alg": alg, "hex": hexe, "n": HUGE_N, "huge": True}, "seed": common.seed()}
+        obs = res[0] if res else None
+        if obs is None or isinstance(obs, common.Crash):
+            if obs is not None and obs.kind == "hang":
+                part["inconclusive"].append("huge one-shot %s on %s exceeded its CPU budget" % (ename, vname))
+            else:
+                part["violations"].append((common.crash_key(obs, ename + ".huge") if obs is not None else "harness:%s:no-observation" % ename,
+                                           dict(w, observed=repr(obs))))
+            continue
+        r = common.R(obs)
+        st = r.u8()
+        if st != 0:
+            part["inconclusive"].append("huge one-shot %s: driver status %d (mapping failed?)" % (ename, st))
+            continue
+        out = r.blob()
+        got = bytes.fromhex(out[:-1].decode()) if hexe else out
+        part["evaluations"] += 1
+        part["counters"]["huge_single_call_cases"] = part["counters"].get("huge_single_call_cases", 0) + 1
+        if got != huge_ref(alg):
+            part["violations"].append(("oracle:%s:wrong-digest:single-call-of-2^32+100-bytes" % ename,
+                                       dict(w, expected=huge_ref(alg).hex(), observed=got.hex())))
+
+
 def worker(job):
     """job: kind, alg, params, tier, seed, variants{vname -> v}"""
     part = common.new_part()
@@ -898,6 +957,7 @@ def worker(job):
             res, storm = run_batched(v["exe"], pl)
             judge_run(part, v, vname, f, red_tpls, res, storm)
     if kind == "inject":
+        huge_cases(part, job)
         for vname in sorted(job["variants"]):
             v = job["variants"][vname]
             if v["spec"].get("san") == "plain":
@@ -1001,6 +1061,13 @@ def replay(path):
         print("replay: variant does not build:", e)
         return 2
     t = w["case"]
+    if t.get("huge"):
+        part = common.new_part()
+        huge_cases(part, {"alg": t["alg"], "tier": "thorough" if t["hex"] else "quick", "variants": {w["variant"]: {"exe": exe, "spec": w["build"]}}})
+        for k, ww in part["violations"]:
+            print(" %s: %s" % (k, str(ww.get("observed"))[:200]))
+        print(" verdict: %s" % ("still failing" if part["violations"] else "not reproduced"))
+        return 1 if part["violations"] else 0
     if t.get("scan"):
         msg = bytes.fromhex(t["msg"])
         b = BLOCK[t["alg"]]
